@@ -339,6 +339,7 @@ class GenerateCode:
 
     def requires(self, structure, class_generator, class_generator_kwargs, objects_delimiter, preamble):
         return {"structure_is_pair": seq_len(structure) == 2,
+                "layout_nodes": nodes_ok(at(structure, 0)),
                 "preamble_str_or_none": is_none(preamble) or ty_is(preamble, str)}
 
     def raises(self, structure, class_generator, class_generator_kwargs, objects_delimiter, preamble):
